@@ -636,3 +636,28 @@ Example C06_parser_agreement_inhabited :
   /\ (exists u', set_username true qx_u (B "u s") = Some (u', SOk) /\ ser u' = B "a://u%20s@h:80/p?q#f")
   /\ (exists u', set_path true qx_u (B "/a b/../c") = Some u' /\ ser u' = B "a://h:80/c?q#f").
 Proof. exact agree_inhabited. Qed.
+
+(* 16. auth_end_ok - the premise of C06_frame_path / C06_parser_agreement_set_path - holds of every record
+   Parser::parse_url returns for an input that carries a scheme other than "file", parsed without a base and
+   without an encoding override (the four canonical classes of C02: special with authority, non-special with
+   authority, '/'-led path without authority, opaque path), under C02's hypotheses on the host functions.
+   NOT covered: the file scheme (auth_end_ok is vacuous there, but the scheme text of the result is not
+   tracked), results of joins, and preservation along setter histories. *)
+From RU Require Import Proofs.C02_AuthMain Proofs.C06_AuthEnd.
+Theorem C06_auth_end_parse : forall dbg hp hpo hd input u,
+  HostRT hp hpo hd -> host_above hp hpo hd -> usv_list input -> nonfile_input input = true ->
+  parse_url dbg hp hpo hd None None input = POk u -> auth_end_ok u.
+Proof. exact parse_nonfile_auth_end. Qed.
+Check C06_auth_end_parse : forall dbg hp hpo hd input u,
+  HostRT hp hpo hd -> host_above hp hpo hd -> usv_list input -> nonfile_input input = true ->
+  parse_url dbg hp hpo hd None None input = POk u -> auth_end_ok u.
+Print Assumptions C06_auth_end_parse.
+
+Example C06_auth_end_parse_inhabited :
+  HostRT ex_hp ex_hp ex_hd /\ host_above ex_hp ex_hp ex_hd
+  /\ nonfile_input (B "HTTPS:\\h") = true /\ nonfile_input (B "a://u@h:1/") = true
+  /\ exists u, parse_url true ex_hp ex_hp ex_hd None None (B "HTTPS:\\h") = POk u /\ ser u = B "https://h/".
+Proof.
+  split; [exact (proj1 ex_host_RT)|]. split; [exact (proj2 ex_host_RT)|].
+  split; [vm_compute; reflexivity|]. split; [vm_compute; reflexivity|]. eexists. split; vm_compute; reflexivity.
+Qed.
